@@ -72,6 +72,14 @@ def gcc_case(cli, sc, idx, prog, branch):
         p = sh(["./prog", a], b)
         if p.returncode != 0:
             return {"driver_error": "program failed"}
+    # a unit without any function writes no .gcda: recompiling it makes it an ordinary never-run unit, not a stale one
+    stale = [u for u in prog.get("stale", []) if os.path.exists(os.path.join(b, u[:-2] + ".gcda"))]
+    for k, u in enumerate(stale):
+        with open(os.path.join(b, u), "a") as f:
+            f.write("unsigned stale_extra_%d(unsigned a)\n{\n    return a + %d;\n}\n" % (k, k + 1))
+        p = sh(["gcc", "--coverage", "-O0", "-c", u, "-o", u[:-2] + ".o"], b)
+        if p.returncode != 0:
+            return {"driver_error": "gcc (stale recompilation) failed: " + p.stderr.decode()[-500:]}
     if not os.listdir(os.path.join(b, "sub")):
         os.rmdir(os.path.join(b, "sub"))
     # (a) the toolchain's own account: gcov -b -c (text) and gcov -b -c -j (JSON), per notes file
@@ -81,6 +89,14 @@ def gcc_case(cli, sc, idx, prog, branch):
     for u in prog["units"]:
         g = u[:-2] + ".gcno"
         p = sh(["gcov", "-b", "-c", g], acct)
+        if u in stale:
+            # gcov itself rejects this unit: it has no account and must contribute nothing to the report
+            if p.returncode == 0:
+                return {"driver_error": "gcov accepted a unit that was meant to be stale: " + u}
+            for fn in os.listdir(acct):
+                if fn.endswith(".gcov") or fn.endswith(".gcov.json.gz"):
+                    os.remove(os.path.join(acct, fn))
+            continue
         if p.returncode != 0:
             return {"driver_error": "gcov failed: " + p.stderr.decode()[-300:]}
         for fn in sorted(os.listdir(acct)):
@@ -170,12 +186,15 @@ def gcc_stream(chk, cli, ncases):
           "units": ["main.c", "alpha.c", "stats.v2.c", "beta.c", "io.test.c", "gamma.c"], "runs": ["3", "0"], "pair_line": False}
     d2 = {"files": {"m0.c": main, "a.b.c": unit(1), "zeta.c": unit(2), "k.1.2.c": unit(3), "plain.c": unit(4), "w.x.c": unit(5)},
           "units": ["m0.c", "a.b.c", "zeta.c", "k.1.2.c", "plain.c", "w.x.c"], "runs": ["7"], "pair_line": False}
-    progs = [(-1, w, False), (-2, d1, True), (-3, d2, False)] + progs
+    # stale translation units (gcov fails on them but leaves its output behind): they must contribute nothing, for every thread count
+    d3 = dict(d1, stale=["alpha.c", "io.test.c"])
+    d4 = dict(d2, stale=["zeta.c"], runs=["7", "2"])
+    progs = [(-1, w, False), (-2, d1, True), (-3, d2, False), (-4, d3, False), (-5, d4, True)] + progs
     with concurrent.futures.ThreadPoolExecutor(max_workers=8) as ex:
-        outs = list(ex.map(lambda t: gcc_case(cli, sc, t[0] + 3, t[1], t[2]), progs))
+        outs = list(ex.map(lambda t: gcc_case(cli, sc, t[0] + 5, t[1], t[2]), progs))
     known = {e["key"]: e for e in vlib.known_findings(chk.pid) if e.get("status") == "known"}
     dist = {"programs": len(progs), "runs_0": 0, "runs_1": 0, "runs_2plus": 0, "units_multi": 0, "with_header": 0, "with_subdir": 0,
-            "pair_line": 0, "branch": 0, "units_total": 0, "programs_with_dotted_unit_name": 0, "thread_counts": list(THREADS), "lines_compared": 0, "functions_compared": 0, "known_class_lines": 0,
+            "pair_line": 0, "branch": 0, "units_total": 0, "programs_with_dotted_unit_name": 0, "programs_with_stale_units": 0, "stale_units": 0, "failed_items_in_model_runs": 0, "thread_counts": list(THREADS), "lines_compared": 0, "functions_compared": 0, "known_class_lines": 0,
             "latch_multiple": 0, "latch_single": 0}
     exprs, ecases = [], []
     pending_known = []
@@ -188,6 +207,9 @@ def gcc_stream(chk, cli, ncases):
         dist["runs_%s" % (len(prog["runs"]) if len(prog["runs"]) < 2 else "2plus")] += 1
         dist["units_multi"] += len(prog["units"]) > 1
         dist["units_total"] += len(prog["units"])
+        dist["programs_with_stale_units"] += bool(prog.get("stale"))
+        dist["stale_units"] += len(prog.get("stale", []))
+        dist["failed_items_in_model_runs"] += sum(not it["run_ok"] for it in o["items"])
         dist["programs_with_dotted_unit_name"] += any(os.path.basename(u).count(".") > 1 for u in prog["units"])
         dist["with_header"] += "util.h" in prog["files"]
         dist["with_subdir"] += any(u.startswith("sub/") for u in prog["units"])
@@ -561,7 +583,7 @@ def run(chk):
     chk.extra["toolchain"] = {"gcov": v, "gcc": sh(["gcc", "--version"], "/").stdout.decode().split("\n")[0]}
     chk.cov["rule"] = ("(GCC) seeded C programs (1-3 translation units, optional sub-directory unit, header with static inline functions, straight-line / "
                        "if-else / for / while / switch / nested / ternary bodies, optional two functions on one line), gcc --coverage -O0, 0-3 runs; "
-                       "gcov -b -c text account (cross-checked with gcov --json-format) vs grcov -t lcov [--branch] --threads 1,2,3,4,8; several translation units per program, some with an extra dot in the file name; glue model fed with "
+                       "gcov -b -c text account (cross-checked with gcov --json-format) vs grcov -t lcov [--branch] --threads 1,2,3,4,8; several translation units per program, some with an extra dot in the file name, some stale (recompiled after the run: gcov fails on them and they must contribute nothing); glue model fed with "
                        "what `gcov <gcno> -i` leaves in a worker directory.  (LLVM) recording llvm-profdata/llvm-cov stand-ins under --llvm-path; "
                        "layouts over directories, zips, plain arguments (same relative names in several archives, _1 suffixes, noise files, both profile kinds); "
                        "binary trees with ELF files with/without exec bit, distinct executables sharing a file name in different directories, scripts, text, empty and 1-byte files, failing and unparsable exports, dot-directories, "
